@@ -280,6 +280,24 @@ def rule_R2(ctx, f):
         ctx.ob(rid, "unregister|collector-id", ok, "unregister must compute the collector id as the wrapping sum of the distinct descriptor ids and remove that key", site=u.raw["span"]["at"])
 
 
+def _same_entries_owned(f, t, local):
+    """t = local.into_iter().map(|(k, v)| (k.to_owned(), v)): the same entries, keys turned into owned strings (staging map keyed by borrowed names)."""
+    t = peel(t, transparent=[])
+    if not is_call(t, "Iterator::map"):
+        return False
+    src = peel(t[2][0], transparent=["IntoIterator::into_iter", "HashMap::into_iter", "HashMap::iter", "HashMap::drain"])
+    a = peel(t[2][1], transparent=[])
+    cl = f.closure(a[2]) if (isinstance(a, tuple) and a and a[0] == "agg" and a[1] == "closure") else None
+    if src != local or cl is None:
+        return False
+    r = peel(cl.term_local(0), transparent=[])
+    own = ["ToOwned::to_owned", "str::to_owned", "ToString::to_string", "String::from", "Into::into", "From::from", "Clone::clone", "str::to_string"]
+    if not (isinstance(r, tuple) and r and r[0] == "agg" and r[1] == "tuple" and len(r[3]) == 2):
+        return False
+    k, v = peel(r[3][0], transparent=own), peel(r[3][1], transparent=["Clone::clone"])
+    return k == ("field", ("param", 2), "0") and v == ("field", ("param", 2), "1")
+
+
 def rule_R3(ctx, f):
     rid = "R3"
     ctx.rule(rid, "commit: on the Vacant arm desc_ids receives the local id set, dim_hashes_by_name the new names and collectors_by_id the collector; "
@@ -342,7 +360,8 @@ def rule_R3(ctx, f):
     ctx.ob(rid, "register|commit-collector", ok, "on success the collector passed in must be inserted into the vacant entry", site=col[0].span if col and hasattr(col[0], "span") else b.raw["span"]["at"])
     dims = by_field.get("dim_hashes_by_name", [])
     names_local = [peel(c.args[0]) for c in b.calls_to("HashMap::insert") if self_field_of(c.args[0]) is None]
-    ok = len(dims) == 1 and hasattr(dims[0], "bb") and b.dominates(vac, dims[0].bb) and names_local and peel(dims[0].args[1]) == names_local[0]
+    ok = len(dims) == 1 and hasattr(dims[0], "bb") and b.dominates(vac, dims[0].bb) and names_local and \
+        (peel(dims[0].args[1]) == names_local[0] or _same_entries_owned(f, dims[0].args[1], names_local[0]))
     ctx.ob(rid, "register|commit-dims", ok, "on success dim_hashes_by_name must receive exactly the names collected during this call", site=dims[0].span if dims and hasattr(dims[0], "span") else b.raw["span"]["at"])
     if names_local:
         li = [c for c in b.calls_to("HashMap::insert") if self_field_of(c.args[0]) is None]
